@@ -159,6 +159,11 @@ func main() {
 						if obj == nil {
 							continue
 						}
+						if isSyncType(obj.Type()) {
+							// a mutex / once / atomic is a synchronisation object: its operations are
+							// scheduling points of the shim, not data accesses
+							continue
+						}
 						vi := &varInfo{Name: id.Name, Pkg: pd.path, Type: obj.Type().String(), obj: obj, DeclFile: filepath.Base(fset.Position(id.Pos()).Filename)}
 						if len(vs.Values) == len(vs.Names) {
 							vi.HasInit, vi.initExpr = true, vs.Values[i]
@@ -214,6 +219,72 @@ func main() {
 	}
 	for _, vi := range vars {
 		addType(vi.obj.Type(), 0)
+	}
+	// Only types whose fields/elements are assigned somewhere outside composite literals can change
+	// after construction; instances of the others are immutable and their methods need no points.
+	mutable := map[*types.TypeName]bool{}
+	markMutable := func(info *types.Info, lhs ast.Expr) {
+		e := lhs
+		for {
+			var inner ast.Expr
+			switch x := e.(type) {
+			case *ast.SelectorExpr:
+				inner = x.X
+			case *ast.IndexExpr:
+				inner = x.X
+			case *ast.StarExpr:
+				inner = x.X
+			case *ast.ParenExpr:
+				inner = x.X
+			case *ast.SliceExpr:
+				inner = x.X
+			default:
+				return
+			}
+			if tv, ok := info.Types[inner]; ok {
+				t := tv.Type
+				if p, ok := t.(*types.Pointer); ok {
+					t = p.Elem()
+				}
+				if n, ok := t.(*types.Named); ok {
+					mutable[n.Obj()] = true
+				}
+			}
+			e = inner
+		}
+	}
+	for _, pd := range pkgs {
+		for _, f := range pd.files {
+			ast.Inspect(f, func(n ast.Node) bool {
+				switch x := n.(type) {
+				case *ast.AssignStmt:
+					for _, l := range x.Lhs {
+						markMutable(pd.info, l)
+					}
+				case *ast.IncDecStmt:
+					markMutable(pd.info, x.X)
+				case *ast.RangeStmt:
+					if x.Tok == token.ASSIGN {
+						if x.Key != nil {
+							markMutable(pd.info, x.Key)
+						}
+						if x.Value != nil {
+							markMutable(pd.info, x.Value)
+						}
+					}
+				case *ast.CallExpr:
+					if id, ok := x.Fun.(*ast.Ident); ok && (id.Name == "delete" || id.Name == "clear" || id.Name == "copy") && len(x.Args) > 0 {
+						markMutable(pd.info, &ast.StarExpr{X: x.Args[0]})
+					}
+				}
+				return true
+			})
+		}
+	}
+	for tn := range stateTypes {
+		if !mutable[tn] {
+			delete(stateTypes, tn)
+		}
 	}
 	for tn := range stateTypes {
 		rep.ReceiverTypes = append(rep.ReceiverTypes, tn.Pkg().Path()+"."+tn.Name())
@@ -446,6 +517,32 @@ func main() {
 	os.WriteFile(filepath.Join(out, "overlay.json"), ob, 0o644)
 	rb, _ := json.MarshalIndent(rep, "", " ")
 	os.WriteFile(filepath.Join(out, "report.json"), rb, 0o644)
+}
+
+func isCompositeLit(e ast.Expr) bool {
+	for {
+		switch x := e.(type) {
+		case *ast.ParenExpr:
+			e = x.X
+		case *ast.CompositeLit:
+			return true
+		default:
+			return false
+		}
+	}
+}
+
+// isSyncType: a named type of package sync or sync/atomic (or a pointer to one).
+func isSyncType(t types.Type) bool {
+	if p, ok := t.(*types.Pointer); ok {
+		t = p.Elem()
+	}
+	n, ok := t.(*types.Named)
+	if !ok || n.Obj().Pkg() == nil {
+		return false
+	}
+	p := n.Obj().Pkg().Path()
+	return p == "sync" || p == "sync/atomic"
 }
 
 func hasBuildIgnore(f *ast.File) bool {
